@@ -668,10 +668,22 @@ def correlated_error(
 # =============================================================================
 
 
-def _m(b: GraphRepresentation, qubit: int, p: float = 0, silent: bool = False) -> None:
-    """Perform measurement on qubit with optional error probability."""
+def _m(
+    b: GraphRepresentation,
+    qubit: int,
+    p: float = 0,
+    silent: bool = False,
+    restore: bool = True,
+) -> None:
+    """Perform measurement on qubit with optional error probability.
+
+    Measurement noise flips only the reported result: the same error bit flips the
+    qubit before the measurement and flips it back afterwards. The flip back is
+    skipped (``restore=False``) when the qubit is reset right after the measurement.
+    """
     if p > 0:
-        x_error(b, qubit, p)
+        b.channel_probs.append(error_probs(p))
+        _error(b, qubit, VertexType.X, f"e{b.num_error_bits}")
     ensure_lane(b, qubit)
     v1 = b.last_vertex[qubit]
     b.graph.set_type(v1, VertexType.Z)
@@ -684,6 +696,10 @@ def _m(b: GraphRepresentation, qubit: int, p: float = 0, silent: bool = False) -
     v2 = add_dummy(b, qubit)
     b.graph.add_edge((v1, v2))
     b.graph.scalar.add_power(-1)
+    if p > 0:
+        if restore:
+            _error(b, qubit, VertexType.X, f"e{b.num_error_bits}")
+        b.num_error_bits += 1
 
 
 def _r(b: GraphRepresentation, qubit: int, perform_trace: bool) -> None:
@@ -721,6 +737,7 @@ def mpp(
     b: GraphRepresentation,
     paulis: list[tuple[Literal["X", "Y", "Z"], int]],
     invert: bool = False,
+    p: float = 0,
 ) -> None:
     """Measure a single Pauli product.
 
@@ -728,6 +745,7 @@ def mpp(
         b: The graph representation to modify.
         paulis: List of (pauli_type, qubit) pairs defining the Pauli product.
         invert: Whether to invert the measurement result.
+        p: Probability of flipping the reported result.
 
     """
     aux = -2
@@ -745,7 +763,19 @@ def mpp(
             raise ValueError(f"Invalid Pauli operator: {pauli_type}")
 
     h(b, aux)
-    m(b, aux, invert=invert)
+    m(b, aux, p=p, invert=invert)
+
+
+def _measure_reset(b: GraphRepresentation, qubit: int, p: float, invert: bool) -> None:
+    """Z-basis measurement (optionally noisy and/or inverted) followed by a reset to |0>.
+
+    The result inversion and the measurement noise only act on the reported bit, so
+    nothing has to be undone on the qubit: it is discarded by the reset.
+    """
+    if invert:
+        x(b, qubit)
+    _m(b, qubit, p, restore=False)
+    _r(b, qubit, perform_trace=False)
 
 
 def mr(b: GraphRepresentation, qubit: int, p: float = 0, invert: bool = False) -> None:
@@ -754,10 +784,7 @@ def mr(b: GraphRepresentation, qubit: int, p: float = 0, invert: bool = False) -
     Projects each target qubit into |0> or |1>, reports its value (false=|0>, true=|1>),
     then resets to |0>.
     """
-    if p > 0:
-        x_error(b, qubit, p)
-    m(b, qubit, p=p, invert=invert)
-    _r(b, qubit, perform_trace=False)
+    _measure_reset(b, qubit, p, invert)
 
 
 def mrx(b: GraphRepresentation, qubit: int, p: float = 0, invert: bool = False) -> None:
@@ -767,10 +794,7 @@ def mrx(b: GraphRepresentation, qubit: int, p: float = 0, invert: bool = False) 
     then resets to |+>.
     """
     h(b, qubit)
-    if p > 0:
-        x_error(b, qubit, p)
-    m(b, qubit, p=p, invert=invert)
-    _r(b, qubit, perform_trace=False)
+    _measure_reset(b, qubit, p, invert)
     h(b, qubit)
 
 
@@ -781,10 +805,7 @@ def mry(b: GraphRepresentation, qubit: int, p: float = 0, invert: bool = False) 
     then resets to |i>.
     """
     h_yz(b, qubit)
-    if p > 0:
-        x_error(b, qubit, p)
-    m(b, qubit, p=p, invert=invert)
-    _r(b, qubit, perform_trace=False)
+    _measure_reset(b, qubit, p, invert)
     h_yz(b, qubit)
 
 
